@@ -86,7 +86,13 @@ def run(rep, tier, seed, pa):
             if not close(a, b, TAU2):
                 rep.violation("slot-order", {"units": case["units"], "dissim": case["spec"], "category": category, "values": [float(a), float(b)]},
                               "gamma_k_disorder changes when the slots of the unitary alignments are re-listed: %r vs %r" % (float(a), float(b)))
-        for kind, al in als:
+        # every alignment object is also evaluated with a SECOND combined dissimilarity (other alpha / delta_empty), and then again with
+        # the first one: the value must be a function of (alignment, dissimilarity, category) only, not of earlier calls
+        spec2 = ("comb", {0.0: 1.0, 0.5: 3.0, 1.0: 0.5, 3.0: 1.0}[case["spec"][1]], 1.0, {0.25: 2.0, 0.5: 1.0, 1.0: 0.5, 2.0: 0.25}.get(case["spec"][3], 1.0)) + tuple(case["spec"][4:])
+        dissim2 = gen.make_dissim(pa, spec2)
+        plan = [(kind, al, dissim, case["spec"]) for kind, al in als] + [(kind + "/2nd-dissimilarity", al, dissim2, spec2) for kind, al in als] + \
+               [(kind + "/1st-again", al, dissim, case["spec"]) for kind, al in als[:1]]
+        for kind, al, dissim, spec_used in plan:
             for category in [None] + labels + ["__absent__"]:
                 try:
                     v = al.gamma_k_disorder(dissim, category)
@@ -96,7 +102,7 @@ def run(rep, tier, seed, pa):
                                   "gamma_k_disorder raised %r" % (e,))
                     continue
                 lines.append(gk_line(al, dissim, category, catid))
-                metas.append((case, kind, category, v, al))
+                metas.append((dict(case, spec=spec_used), kind, category, v, al))
     outs = run_model(lines)
     for (case, kind, category, v, al), out in zip(metas, outs):
         ok = isinstance(out, list) and len(out) == 3
